@@ -197,7 +197,7 @@ def parseOp (w : List String) : Option Op :=
   | ["e", "hash", hex, r] => do
     let h ← parseRes r
     let b ← parseHex hex
-    if hashInDomain b then pure (.hash b h) else none
+    pure (.hash b h)
   | ["e", "reserve", n] => (parseId n).map fun v => .reserve v.toNat
   | ["e", "fini"] => some .fini
   | _ => none
